@@ -267,8 +267,8 @@ func genStockQR(g *vlib.G) {
 		for _, sh := range shapes {
 			for _, f := range fams {
 				kd, m, n, f := kd, sh[0], sh[1], f
-				if !g.Thorough() && kd.name == "Dgerqf" && !quickAll[[2]int{m, n}] {
-					continue // RQ (no Dorm/Dorg part) on the sub-grid only in the quick tier
+				if !g.Thorough() && (kd.name == "Dgerqf" || f.name != "dd") && (m > 100 || n > 100) && !quickAll[[2]int{m, n}] {
+					continue // quick tier: on the large shapes RQ and the families other than dd run on a sub-grid only
 				}
 				if (f.name == "sparse" || f.name == "signmix") && g.Thorough() && !(sparseSize[m] && sparseSize[n]) {
 					continue // the sparse family fails (known Dlarft defect) and every failure is re-run four times: keep it small
